@@ -49,6 +49,13 @@ type Conn struct {
 	caches       [][]byte // buf allocated by Next when cross-package, which should be freed when release
 	maxSize      int      // history max malloc size
 
+	// The last buffer of caches that Peek filled, and the read position it was filled from. A caller that
+	// peeks the same position again with a growing size (the retry loops of the header and trailer
+	// readers) gets the same buffer again as long as it is big enough.
+	peekBuf  []byte
+	peekNode *linkBufferNode
+	peekOff  int
+
 	err error
 }
 
@@ -225,6 +232,7 @@ func (c *Conn) SetWriteDeadline(t time.Time) error {
 }
 
 func (c *Conn) releaseCaches() {
+	c.peekBuf, c.peekNode = nil, nil
 	for i := range c.caches {
 		free(c.caches[i])
 		c.caches[i] = nil
@@ -236,6 +244,8 @@ func (c *Conn) releaseCaches() {
 //
 // NOTE: This function should only be called in inputBuffer.
 func (c *Conn) Release() error {
+	// nodes are reset or recycled below: a remembered peek position means nothing afterwards
+	c.peekBuf, c.peekNode = nil, nil
 	// c.Len() is used to check whether the data has been fully read. If there
 	// is some data in inputBuffer, we mustn't use head and write to check
 	// whether current node can be released. We should use head and read as the
@@ -332,9 +342,19 @@ func (c *Conn) Peek(i int) (p []byte, err error) {
 	}
 
 	// not enough data in a signal node
+	if c.peekNode == node && c.peekOff == node.off && i <= cap(c.peekBuf) {
+		// The same bytes were copied for the previous Peek already, and every copy stays allocated until
+		// Release: a header block that arrives in many small pieces would otherwise keep one copy of
+		// itself per piece (memory quadratic in its size). The bytes at a position never change, so
+		// the earlier, shorter result stays valid.
+		p = c.peekBuf[:i]
+		c.peekBuffer(i, p)
+		return p, err
+	}
 	if block1k < i && i <= mallocMax {
 		p = malloc(i, i)
 		c.caches = append(c.caches, p)
+		c.peekBuf, c.peekNode, c.peekOff = p, node, node.off
 	} else {
 		p = make([]byte, i)
 	}
